@@ -4,7 +4,7 @@ cd "$(dirname "$0")/.."
 for id in "$@"; do for i in 1 2; do
   d=/tmp/seed/$id/out/$i
   [ -f $d/patch.diff ] || { echo "$id-$i: no patch"; continue; }
-  sid=$(echo $id | tr 'A-Z' 'a-z')-$i
+  sid=$(echo $id | tr "A-Z" "a-z")-$((i+${OFFSET:-0}))
   python3 tools/seedeval.py $d $sid 2>&1 | python3 -c "
 import sys,json
 t=sys.stdin.read()
